@@ -11,7 +11,7 @@ does with the tag services to implement `Read(tag, count)`, `Write(tag, values)`
 
 The results are the API-level observables: general status, and for reads the CIP type and the values.
 -/
-namespace Cpppo.Client
+namespace Cpppo.IopClient
 open Cpppo Cpppo.Logix
 
 inductive Op
@@ -89,4 +89,4 @@ def run (d : Dev) : Op → Dev × List Res
     let (d', rs) := execMembers d router (ws.map fun w => Simple.writeTag w.1 w.2.1 1 w.2.2)
     (d', rs.map fun r => { status := r.status })
 
-end Cpppo.Client
+end Cpppo.IopClient
